@@ -256,15 +256,18 @@ def fold(layers, notes):
 # $output selection (C11)
 
 
-def outputs(tree):
+def outputs(tree, both='hidden'):
     """List of output documents for one evaluated document, as a multiset
-    (order is not part of the model)."""
+    (order is not part of the model).  both: reading for a list that carries a true and a false marker entry
+    ('hidden': it is hidden, 'selected': the selection wins)."""
     outs = []
     _find_outputs(tree, outs)
     if not outs:
         outs = [tree]
     res = []
     for o in outs:
+        if both == 'selected' and isinstance(o, list) and any(_is_marker_entry(x, False) for x in o):
+            o = [x for x in o if not _is_marker_entry(x, False)]
         f = _filter_hidden(_strip_true(o))
         if f is not _HIDDEN:
             res.append(f)
